@@ -147,6 +147,12 @@ def check(ctx):
             for par in parts[:-1]:
                 if r.mentions_arg(par) and not arg_only_under_dirname(par, r.is_arg):
                     ok, why = False, 'parent part resolves the argument itself'
+                # the parent is the *resolved* directory, in every alternative (the entry
+                # is brought back to where it was however the links on the way change)
+                for pa in flat(par):
+                    if r.mentions_arg(pa) and not contains(pa, lambda x: is_call(
+                            x, 'os.path.realpath') and r.mentions_arg(x)):
+                        ok, why = False, 'parent %s is not resolved' % short(pa, 60)
         ctx.ob('R18.4', 'recorded location = join(resolved parent, basename(normpath(ARG)))',
                ok, node=w, message='the Path written to the .trashinfo is %s (%s)'
                                    % (short(loc, 100), why))
